@@ -183,7 +183,7 @@ fn timeout_verify(genesis_qc: bool) {
     let exp = a < 4 && stakes[a as usize % 4] > 0 && ok && (genesis_qc || expected(&s, &stakes, q));
     assert!(res.is_ok() == exp, "C04 Timeout::verify accepts/rejects wrongly");
     vwit::cover!(exp);
-    vwit::cover!(!exp && ok && a < 4 && stakes[a as usize % 4] > 0);
+    vwit::cover!(!exp && a < 4 && (genesis_qc || (ok && stakes[a as usize % 4] > 0)));
     std::mem::forget(res);
     std::mem::forget(t);
     std::mem::forget(committee);
@@ -237,7 +237,7 @@ fn block_verify(genesis_qc: bool, with_tc: bool) {
     let exp = a < 4 && stakes[a as usize % 4] > 0 && ok && (genesis_qc || expected(&s, &stakes, q)) && (!with_tc || expected(&st, &stakes, q));
     assert!(res.is_ok() == exp, "C04 Block::verify accepts/rejects wrongly");
     vwit::cover!(exp);
-    vwit::cover!(!exp && ok && a < 4 && stakes[a as usize % 4] > 0);
+    vwit::cover!(!exp && a < 4 && ((genesis_qc && !with_tc) || (ok && stakes[a as usize % 4] > 0)));
     std::mem::forget(res);
     std::mem::forget(b);
     std::mem::forget(committee);
